@@ -772,6 +772,51 @@ def latest_managed_of(sb, base):
         return [(f['target'], f['path'][len(base):]) for f in v['managed_files']]
     return [(c['target'], c['path'][len(base):]) for c in v['changes'] if c['op'] in ('create', 'update') and not is_manifest_name(os.path.basename(c['path']))]
 
+def setup_two_roots(cw, rng):
+    """at least two roots with content: a prompt module (prompts/) and a skill module (skills/)"""
+    cw.opts['write_user_prompts'] = True; cw.opts['write_user_skills'] = True
+    if not any(m['type'] == 'prompt' for m in cw.modules): cw.add_prompt()
+    if not any(m['type'] == 'skill' for m in cw.modules):
+        cw.modules.append({'id': 'skill:s9', 'type': 'skill', 'dir': 'modules/skills/s9', 'files': {'SKILL.md': skill_md('s9', 'one')}, 'targets': [], 'enabled': True})
+    for m in cw.modules:
+        if m['type'] in ('prompt', 'skill'): m['enabled'] = True; m['targets'] = []
+
+def hist_two_roots(st, cw, sb, rng, hs):
+    """S0: everything; S1: only the prompts root changes; S2: only the skills root changes; then rollbacks to
+    S1 / S0 / S2 (a snapshot in which some root saw no change must still bring that root's manifest back)"""
+    def bump(kind, n):
+        m = next(m for m in cw.modules if m['type'] == kind and m['enabled'])
+        fn = sorted(m['files'])[-1] if kind == 'prompt' else 'SKILL.md'
+        m['files'][fn] = (b'prompt v%d\n' % n) if kind == 'prompt' else skill_md(m['id'].split(':')[1], 'v%d' % n)
+        cw.write()
+    if st == 0: return {'kind': 'deploy', 'adopt': False, 'flt': None, 'entry': 'cli_json', 'tags': ['script:all']}
+    if st == 1: bump('prompt', 1); return {'kind': 'deploy', 'adopt': False, 'flt': None, 'entry': rng.choice(['cli_json', 'mcp', 'tui']), 'tags': ['script:prompts_only']}
+    if st == 2: bump('skill', 2); return {'kind': 'deploy', 'adopt': False, 'flt': None, 'entry': rng.choice(['cli_json', 'cli_human_yes']), 'tags': ['script:skills_only']}
+    if st == 3: return {'kind': 'rollback', 'to': 1, 'tags': ['script:to_S1']}
+    if st == 4: return {'kind': 'rollback', 'to': rng.choice([0, 2]), 'tags': ['script:sideways']}
+    if st == 5: return {'kind': 'rollback', 'to': 1, 'tags': ['script:to_S1_again']}
+    return None
+
+def hist_after_empty_rollback(st, cw, sb, rng, hs):
+    """deploy; switch every module off and deploy (a snapshot with an empty managed list); switch them on and
+    deploy; roll back to the empty snapshot; the user then creates files at the desired paths: a deploy without
+    --adopt must be refused, nothing there is recorded as deployed any more"""
+    if st == 0: return {'kind': 'deploy', 'adopt': True, 'flt': None, 'entry': 'cli_json', 'tags': ['script:all']}
+    if st == 1:
+        for m in cw.modules: m['enabled'] = False
+        cw.write(); return {'kind': 'deploy', 'adopt': False, 'flt': None, 'entry': 'cli_json', 'tags': ['script:empty']}
+    if st == 2:
+        for m in cw.modules: m['enabled'] = True
+        cw.write(); return {'kind': 'deploy', 'adopt': False, 'flt': None, 'entry': 'cli_json', 'tags': ['script:all_again']}
+    if st == 3: return {'kind': 'rollback', 'to': 1, 'tags': ['script:to_empty']}
+    if st == 4:
+        D = cw.desired(None)
+        for d in rng.sample(D, rng.randrange(1, len(D) + 1)) if D else []:
+            world.write(d['path'], rng.choice([b'user version\n', b'mine\n']))
+        return {'kind': 'deploy', 'adopt': False, 'flt': rng.choice([None, None, 'codex']), 'entry': rng.choice(['cli_json', 'cli_human_yes', 'cli_human_prompt_y', 'mcp', 'tui']), 'tags': ['script:user_files', 'user:collide']}
+    if st == 5: return {'kind': 'deploy', 'adopt': True, 'flt': None, 'entry': 'cli_json', 'tags': ['script:adopt']}
+    return None
+
 def setup_moved_roots(cw, rng):
     """configurations in which a relocation leaves NO usable manifest in the new roots (so that the
     snapshot fallback decides), plus ordinary ones"""
@@ -946,7 +991,7 @@ class HistState:
         self.owned_ever = []   # every (target, root, command kind) agentpack ever wrote under
         self.events = []       # (ordinal or None, kind)
 
-def run_hist_stream(ctx, nhist, depth, props, weights, stream='full_hist', tamper=False, kinds_seq=None, simple=False, setup=None):
+def run_hist_stream(ctx, nhist, depth, props, weights, stream='full_hist', tamper=False, kinds_seq=None, simple=False, setup=None, plan_script=None):
     rng = ctx.rng
     cases = []
     kinds = [k for k, wgt in weights.items() for _ in range(wgt)]
@@ -973,10 +1018,18 @@ def run_hist_stream(ctx, nhist, depth, props, weights, stream='full_hist', tampe
                 elif kind == 'rollback' and rng.random() < 0.5:
                     burst = rng.randrange(1, 3)      # rollback bursts: redo / sibling rollbacks in a row
                 sids = list_snapshot_ids(sb)
+                sc = None
+                if plan_script is not None:
+                    sc = plan_script(st, cw, sb, rng, hs)     # the script performs its own config / user edits
+                    if sc is None:
+                        break
+                    kind = sc['kind']
                 if kind == 'rollback' and not sids:
                     kind = 'deploy'
-                tags = ['op:' + kind]
-                if kind == 'deploy':
+                tags = ['op:' + kind] + (sc.get('tags', []) if sc else [])
+                if sc is not None:
+                    pass
+                elif kind == 'deploy':
                     if st > 0 and simple:
                         tags.append('cfg:' + (cw.add_prompt() if rng.random() < 0.7 else cw.edit_config())); cw.write()
                     elif st > 0 and rng.random() < 0.6:
@@ -999,6 +1052,8 @@ def run_hist_stream(ctx, nhist, depth, props, weights, stream='full_hist', tampe
                     entry = rng.choice(['cli_json', 'cli_json', 'cli_human_yes', 'mcp', 'tui'])
                     if simple:
                         flt = None; adopt = False
+                    if sc is not None:
+                        flt = sc.get('flt'); adopt = bool(sc.get('adopt')); entry = sc.get('entry', entry)
                     lm = latest_managed_of(sb, base)
                     D = relD(cw.desired(flt), base); R = relR(cw.roots(flt), base)
                     plan, code, extra = run_deploy_step(sb, cw, entry, adopt, flt)
@@ -1076,7 +1131,9 @@ def run_hist_stream(ctx, nhist, depth, props, weights, stream='full_hist', tampe
                     ctx.count(stream, key=('bootstrap', len(plan)), nontrivial=len(plan) > 0, tags=tags)
                 elif kind == 'rollback':
                     choice = rng.random()
-                    if simple:
+                    if sc is not None and sc.get('to') is not None and sc['to'] < len(sids):
+                        ordn = sc['to']; sid = sids[ordn]
+                    elif simple:
                         cands = [i for i, sn in enumerate(hs.snaps) if sn['kind'] == 'deploy'] or [0]
                         ordn = rng.choice(cands); sid = sids[ordn]
                     elif choice < 0.8:
@@ -1188,6 +1245,7 @@ def oracle_rollback(ctx, props, hs, ordn, before, after, sb, base, rec):
             ctx.violation(what, r2)
         out.append(p)
     # manifests: those S wrote hold S's version again; manifests first written after S left behind = K6c
+    plain = all(sn['kind'] in ('deploy', 'rollback') and sn['flt'] is None and not sn['adopted'] for sn in [S] + later)
     for p in set(before) | set(after):
         if not is_manifest_name(os.path.basename(p)):
             continue
@@ -1197,7 +1255,19 @@ def oracle_rollback(ctx, props, hs, ordn, before, after, sb, base, rec):
                 ctx.known_finding('K6c', KNOWN_TEXT['K6c'])
             else:
                 ctx.violation('after rollback a manifest first written after the snapshot is left behind: %s' % p, dict(rec, path=p, cls='K6c'))
+        elif want is not None and got is not None and want != got and p not in getattr(hs, 'user_changed', set()):
+            # "manifests included": a manifest that existed right after S and that a later deployment rewrote lists
+            # what it listed right after S.  Judged on plain histories (no filter, no bootstrap, no adopt: those are K6a/K6b).
+            if plain and manifest_listing(want) != manifest_listing(got):
+                ctx.violation('after rollback the manifest %s does not list what it listed right after the snapshot' % p, dict(rec, path=p, cls=None))
     return out
+
+def manifest_listing(b):
+    try:
+        v = json.loads(b)
+        return (v.get('schema_version'), v.get('tool'), sorted((e.get('path'), e.get('sha256')) for e in v.get('managed_files', [])))
+    except Exception:
+        return ('raw', b)
 
 KNOWN_TEXT = {
     'K6a': 'rollback across target-filtered deploys / bootstraps: files of targets the chosen or the head snapshot does not cover are deleted or left behind',
@@ -1319,6 +1389,12 @@ def setup_shared_root(cw, rng):
     cw.modules = [m for m in cw.modules if m['type'] != 'instructions']
     cw.modules.append({'id': 'instructions:base', 'type': 'instructions', 'dir': 'modules/instructions/base',
                        'files': {'AGENTS.md': b'# shared rules\n'}, 'targets': [], 'enabled': True})
+    if rng.random() < 0.35:
+        # one-sided: only one of the two targets sharing the directory has any output at all, so the other
+        # target's roots carry no usable manifest entry and its filtered deploy takes the snapshot fallback
+        cw.modules = [m for m in cw.modules if m['type'] == 'instructions']
+        cw.modules[0]['targets'] = [rng.choice(['zed', 'codex'])]
+        cw.claude = False
 
 def script_shared_root_filter(st, cw, sb, rng):
     """deploy everything, then deploy with --target codex / --target zed while the other target has files in the same directory"""
